@@ -278,7 +278,7 @@ theorem detach_absent_keyerror (ops : List Op) (hp : Proper ops) (p : Name) :
 theorem reply_truthful (pd : Pending) (now : Nat) (data : Bytes) :
     ∃ r sent, reply true pd now data = .ok (r, sent) ∧
       (r = true ↔ sent ≠ []) ∧ (r = true ↔ now ≤ pd.deadline) := by
-  unfold reply
+  rw [reply_eq]
   by_cases hlate : now > pd.deadline
   · exact ⟨false, [], by simp [hlate], by simp, by simp; omega⟩
   · cases ht : pd.pitToken with
@@ -294,10 +294,10 @@ theorem reply_payload (pd : Pending) (now : Nat) (data : Bytes) :
   constructor
   · intro h
     have : ¬ now > pd.deadline := by omega
-    unfold reply
+    rw [reply_eq]
     cases pd.pitToken <;> simp [this]
   · intro r sent h
-    unfold reply at h
+    rw [reply_eq] at h
     split at h
     · cases h; exact ⟨rfl, rfl⟩
     · simp at h
@@ -322,8 +322,8 @@ theorem reply_deadline_is_lifetime (arrival off : Nat) (lifetime : Option Nat) (
       have : r = true := hr.mpr (by omega)
       exact ⟨sent, by rw [this]⟩
   cases lifetime with
-  | some l => exact key l rfl
-  | none => exact key 4000 rfl
+  | some l => exact key l (by rw [mkPending_eq])
+  | none => exact key 4000 (by rw [mkPending_eq])
 
 /-- **key_repr_irrelevant.** `NameTrie._path_from_key` makes the trie path depend only on the
     content of the components, not on the buffer class (bytes / bytearray / memoryview) the caller
@@ -386,5 +386,47 @@ example : reply true (mkPending 1000 (some 100) none) 1101 [6, 0] = .ok (false, 
 example : reply true (mkPending 1000 none (some [0xab])) 5000 [6, 0] = .ok (true, [[0x64, 7, 0x62, 1, 0xab, 0x50, 2, 6, 0]]) := by
   rfl
 example : trieKey [⟨.bytearray, cA⟩, ⟨.rwView, cB⟩] = trieKey [⟨.roView, cA⟩, ⟨.bytes, cB⟩] := by decide
+
+/-! ### what the model takes from the source text
+
+`Ndn.Gen.C04` (lean/NdnGen/C04.lean) is regenerated from `src/ndn/appv2.py`, `src/ndn/app.py`,
+`src/ndn/app_support/dispatcher.py` and `src/ndn/name_tree.py` by every check run (`harness/props/pit_extract.py`,
+`ast` only).  `Fib.mkPending` and `Fib.reply` compute with its default lifetime, its default-substitution shape and its
+comparison operator, so `reply_truthful`, `reply_payload` and `reply_deadline_is_lifetime` are theorems about the
+generated values (pinned by `gen_reply_deadline` in `NdnProofs/Lemmas/Fib.lean`, on which every theorem here is
+built); the shapes the model mirrors structurally are pinned here, entry by entry. -/
+
+/-- a late reply returns `False`, a transmitted one `True` (with the repair of finding F7) -/
+theorem gen_reply_returns :
+    Gen.C04.reply.lateReturns = "False" ∧ Gen.C04.reply.successReturns = "True" := by decide
+
+/-- what `reply` writes: the packet, or `_put_raw_packet_with_pit_token` when the Interest carried a PIT token; both
+    raise NetworkError while the face is down -/
+theorem gen_reply_send :
+    Gen.C04.reply.send = "{if pit_token is None: self._put_raw_packet(data) else: self._put_raw_packet_with_pit_token(data, pit_token)}" ∧
+    Gen.C04.reply.sendRequiresRunning = true := by decide
+
+/-- attach (`Fib.attach`): `setdefault` of a fresh node, refused with ValueError iff `node.callback` is truthy -
+    `attach_handler`, `set_interest_filter` and `Dispatcher.register` alike -/
+theorem gen_attach :
+    Gen.C04.v2.attach = "setdefault(PrefixTreeNode()); if node.callback: raise ValueError; node.callback = arg" ∧
+    Gen.C04.v1.attach = Gen.C04.v2.attach ∧ Gen.C04.disp.attach = Gen.C04.v2.attach := by decide
+
+/-- detach (`Fib.detach`) is a plain `del` (KeyError when absent); the legacy `unregister` coroutine ignores that
+    KeyError (`Fib.unregisterV1`) -/
+theorem gen_detach :
+    Gen.C04.v2.detach = "del" ∧ Gen.C04.v1.detach = "del" ∧ Gen.C04.disp.detach = "del" ∧
+    Gen.C04.unregisterV1 = "del ignoring keyError" := by decide
+
+/-- dispatch (`Fib.onInterest`, `Fib.dispatcherDispatch`): nothing happens without a route; a node whose callback is
+    `None` is skipped by the applications and called by the Dispatcher -/
+theorem gen_dispatch :
+    Gen.C04.v2.noRoute = "not STEP" ∧ Gen.C04.v1.noRoute = "not STEP" ∧ Gen.C04.disp.noRoute = "not STEP" ∧
+    Gen.C04.v2.noCallback = "node.callback is None" ∧ Gen.C04.v1.noCallback = "node.callback is None" ∧
+    Gen.C04.disp.noCallback = "none" := by decide
+
+/-- `NameTrie._path_from_key` (`Fib.pathFromKey`): read-only memoryviews are kept, everything else becomes `bytes` -/
+theorem gen_path_from_key :
+    Gen.C04.pathFromKey = "X if X.readonly and isinstance(X, memoryview) else bytes(X)" := by decide
 
 end Ndn.C04
